@@ -4,7 +4,8 @@
 //!   EPOLL w=<workers> failadd=<i,j|-> plan=<step>,<step>,…
 //!   steps: o<i> open connection i | s<i>:<hex> send (one complete request) | r<i> read one response |
 //!          x<i> close connection i | h<i> half-close | w short pause (3 ms) | z long pause (40 ms) |
-//!          y wait until a `/slow` handler has started since the previous y (its request is off the socket)
+//!          y wait until a `/slow` handler has started since the previous y (its request is off the socket) |
+//!          H / U hold / release the event loop inside the set-up hook | q<n> wait for the n-th hook entry | O<i> open, no pause
 //! Output: `E tr=<conn transcripts '/'-separated> ev=<raw trace> closes=<peerport:count,…> ports=<port per conn>
 //!          live_before_stop=<records> returned=<0|1>`
 use crate::dom_conn::read_response;
@@ -62,8 +63,18 @@ pub fn epoll(arg: &str) -> String {
     });
     b.fallback_route(|_ctx, res| res.send0(&Status::NOT_FOUND, Headers::empty_nodate()));
     let stop2 = Arc::clone(&stop);
+    // `H` / `U` steps: while HOLD is set the set-up hook (which runs on the event-loop thread) does not return, so that
+    // several clients can connect between two looks of the loop at the listener; SETUPS counts hook entries (`q<n>` waits)
+    let hold = Arc::new(AtomicBool::new(false));
+    let setups = Arc::new(std::sync::atomic::AtomicUsize::new(0));
+    let (hold2, setups2) = (Arc::clone(&hold), Arc::clone(&setups));
     b.connection_setup_hook(move |conn| match conn {
         Ok((stream, _)) => {
+            setups2.fetch_add(1, Ordering::SeqCst);
+            let th = Instant::now();
+            while hold2.load(Ordering::SeqCst) && th.elapsed() < Duration::from_millis(3000) {
+                std::thread::sleep(Duration::from_micros(200));
+            }
             if stop2.load(Ordering::SeqCst) {
                 ConnectionSetupAction::StopAccepting
             } else {
@@ -97,7 +108,16 @@ pub fn epoll(arg: &str) -> String {
         }
         let (op, rest) = step.split_at(1);
         match op {
-            "o" => {
+            "H" => hold.store(true, Ordering::SeqCst),
+            "U" => hold.store(false, Ordering::SeqCst),
+            "q" => {
+                let want = idx(rest);
+                let t = Instant::now();
+                while setups.load(Ordering::SeqCst) < want && t.elapsed() < Duration::from_millis(2000) {
+                    std::thread::sleep(Duration::from_micros(200));
+                }
+            }
+            "o" | "O" => {
                 let i = idx(rest);
                 let c = loop {
                     match TcpStream::connect(("127.0.0.1", port)) {
@@ -117,8 +137,10 @@ pub fn epoll(arg: &str) -> String {
                     ports[i] = c.local_addr().map(|a| a.port()).unwrap_or(0);
                 }
                 conns[i] = c;
-                // let the accept be processed before anything else happens on the listener
-                std::thread::sleep(Duration::from_millis(4));
+                // let the accept be processed before anything else happens on the listener (`O`: no pause — a burst of connects)
+                if op == "o" {
+                    std::thread::sleep(Duration::from_millis(4));
+                }
             }
             "s" => {
                 let mut it = rest.splitn(2, ':');
@@ -182,7 +204,7 @@ pub fn epoll(arg: &str) -> String {
     let live_before = crate::live_records() - live0;
     stop.store(true, Ordering::SeqCst);
     let _ = TcpStream::connect(("127.0.0.1", port));
-    let returned = rx.recv_timeout(Duration::from_millis(2500)).is_ok();
+    let returned = rx.recv_timeout(Duration::from_millis(4500)).is_ok(); // > the 3 s read time-out of a worker pinned by a spurious dispatch (K14)
     std::thread::sleep(Duration::from_millis(10));
     CLOSE_LOG_ON.store(false, Ordering::SeqCst);
     *ADD_FAIL_PLAN.lock().unwrap() = (0, Vec::new());
